@@ -4,9 +4,11 @@
 (* recorded by the `verif` hooks while TLC-chosen schedules were replayed  *)
 (* on a cold schema / plan / cache.                                        *)
 (*   {"t":"new", ...}                           a fresh world              *)
-(*   {"t":"ev","g":G,"c":CELL,"rw":"rd|wr","locked":B}                     *)
-(* `locked` is what TryLock observed at the instrumentation point, so a    *)
-(* removed Lock() shows as an unprotected access.  Each access must keep   *)
+(*   {"t":"ev","g":G,"c":CELL,"rw":"rd|wr","lk":"x|s|n"}                   *)
+(* `lk` is what TryLock/TryRLock observed at the instrumentation point     *)
+(* (held exclusively, held shared, not held), so a removed Lock() shows as *)
+(* an unprotected access and a look-up moved under the shared side of a    *)
+(* reader/writer lock as a shared one.  Each access must keep              *)
 (* Lazy!NoRace and Lazy!AtMostOneBuilder true of the accesses seen so far  *)
 (* in this world; otherwise the line is not a step of the intended         *)
 (* protocol and the trace is rejected.                                     *)
@@ -19,6 +21,7 @@ tvars == <<l, acc>>
 
 Line == TraceLog[l]
 Conflict(a, b) == a.c = b.c /\ a.g # b.g /\ (a.rw = "wr" \/ b.rw = "wr")
+Ordered(a, b) == (a.lk = "x" /\ b.lk # "n") \/ (b.lk = "x" /\ a.lk # "n")      \* Lazy!Ordered
 
 TInit == l = 1 /\ acc = {}
 
@@ -26,9 +29,9 @@ New == l <= Len(TraceLog) /\ Line.t = "new" /\ acc' = {} /\ l' = l + 1
 
 Access ==
   /\ l <= Len(TraceLog) /\ Line.t = "ev"
-  /\ LET a == [g |-> Line.g, c |-> Line.c, rw |-> Line.rw, locked |-> Line.locked] IN
-     /\ \A b \in acc : Conflict(a, b) => (a.locked /\ b.locked)              \* NoRace
-     /\ (a.rw = "wr" /\ ~a.locked) => \A b \in acc : ~(b.c = a.c /\ b.rw = "wr")  \* one unlocked builder at most
+  /\ LET a == [g |-> Line.g, c |-> Line.c, rw |-> Line.rw, lk |-> Line.lk] IN
+     /\ \A b \in acc : Conflict(a, b) => Ordered(a, b)                        \* NoRace
+     /\ (a.rw = "wr" /\ a.lk = "n") => \A b \in acc : ~(b.c = a.c /\ b.rw = "wr")  \* one unlocked builder at most
      /\ acc' = acc \cup {a}
   /\ l' = l + 1
 
